@@ -305,6 +305,15 @@ def law_bounded(ctx):
     res2, exc2 = ctx.call(inv.calculate, L)
     if isinstance(exc2, RuntimeError) and "converge" in str(exc2):
         return   # A2: convergence of scipy's root finder is assumed, not checked (it gave up loudly)
+    implied = {frozenset(("start_size", "end_size")): lambda: (kw["start_size"], kw["end_size"]),
+               frozenset(("start_size", "total_expansion")): lambda: (kw["start_size"], kw["start_size"] * kw["total_expansion"]),
+               frozenset(("end_size", "total_expansion")): lambda: (kw["end_size"] / kw["total_expansion"], kw["end_size"])}.get(frozenset(given))
+    if implied is not None and sum(implied()) > L and isinstance(exc2, (ValueError, ArithmeticError)):
+        # a first and a last cell that together exceed the edge cannot be realised with two or more cells: the
+        # property asks for rejection with an error there, in either direction (the library's answer depends on
+        # which iterates scipy's root finder visits); only a wrong or non-finite grading would be a violation
+        ctx.prove("unrealisable-sizes-rejected-with-an-error", True, exc=repr(exc2))
+        return
     ctx.prove("inverted-chop-accepted-too", exc2 is None, exc=repr(exc2), kw=kw, L=L)
     if exc2 is None:
         ctx.prove("inverted-chop-same-count", res2[0] == count, a=res2[0], b=count, kw=kw, L=L)
